@@ -282,6 +282,111 @@ theorem plain_child_error (dims : List Dim) (kvs : List (String × Y))
   rw [resolve, hsw]
   simp [resolveKVs_none dims kvs k v hm hv]
 
+/-! ### the resolved tree contains no dimension-keyed map any more -/
+
+mutual
+  /-- no map inside `y` is a switch of a registered dimension -/
+  def noSwitch (dims : List Dim) : Y → Bool
+    | .map kvs => (switchDim dims kvs).isNone && noSwitchKVs dims kvs
+    | .list xs => noSwitchList dims xs
+    | _ => true
+  def noSwitchList (dims : List Dim) : List Y → Bool
+    | [] => true
+    | x :: xs => noSwitch dims x && noSwitchList dims xs
+  def noSwitchKVs (dims : List Dim) : List (String × Y) → Bool
+    | [] => true
+    | (_, v) :: rest => noSwitch dims v && noSwitchKVs dims rest
+end
+
+theorem resolveKVs_keys (dims : List Dim) : ∀ (kvs r : List (String × Y)),
+    resolveKVs dims kvs = some r → r.map (·.1) = kvs.map (·.1)
+  | [], r, h => by simp [resolveKVs] at h; subst h; rfl
+  | (k, v) :: rest, r, h => by
+    rw [resolveKVs] at h
+    cases hv : resolve dims v with
+    | none => simp [hv] at h
+    | some v' =>
+      cases hr : resolveKVs dims rest with
+      | none => simp [hv, hr] at h
+      | some rest' =>
+        simp [hv, hr] at h; subst h
+        simp [resolveKVs_keys dims rest rest' hr]
+
+theorem switchDim_congr_keys (dims : List Dim) (kvs kvs' : List (String × Y))
+    (h : kvs'.map (·.1) = kvs.map (·.1)) : switchDim dims kvs' = switchDim dims kvs := by
+  unfold switchDim
+  congr 1
+  funext d
+  simp only [isSwitchOf, nonDefaultKeys, h]
+
+mutual
+  /-- Every dimension-keyed map is replaced: the tree `Get` reads from contains none. -/
+  theorem resolve_noSwitch (dims : List Dim) : ∀ (y r : Y), resolve dims y = some r → noSwitch dims r = true
+    | .map kvs, r, h => by
+      rw [resolve] at h
+      cases hs : switchDim dims kvs with
+      | some d =>
+        simp only [hs] at h
+        cases hk : selectKey d kvs with
+        | none => simp [hk] at h
+        | some key => simp only [hk] at h; exact resolveAt_noSwitch dims kvs key r h
+      | none =>
+        simp only [hs] at h
+        cases hr : resolveKVs dims kvs with
+        | none => simp [hr] at h
+        | some kvs' =>
+          simp [hr] at h; subst h
+          simp only [noSwitch, Bool.and_eq_true]
+          refine ⟨?_, resolveKVs_noSwitch dims kvs kvs' hr⟩
+          rw [switchDim_congr_keys dims kvs kvs' (resolveKVs_keys dims kvs kvs' hr), hs]; rfl
+    | .list xs, r, h => by
+      rw [resolve] at h
+      cases hr : resolveList dims xs with
+      | none => simp [hr] at h
+      | some xs' => simp [hr] at h; subst h; simpa [noSwitch] using resolveList_noSwitch dims xs xs' hr
+    | .null, r, h => by simp [resolve] at h; subst h; rfl
+    | .str _, r, h => by simp [resolve] at h; subst h; rfl
+    | .int _, r, h => by simp [resolve] at h; subst h; rfl
+    | .bool _, r, h => by simp [resolve] at h; subst h; rfl
+  theorem resolveList_noSwitch (dims : List Dim) : ∀ (xs r : List Y), resolveList dims xs = some r → noSwitchList dims r = true
+    | [], r, h => by simp [resolveList] at h; subst h; rfl
+    | x :: xs, r, h => by
+      rw [resolveList] at h
+      cases hx : resolve dims x with
+      | none => simp [hx] at h
+      | some x' =>
+        cases hr : resolveList dims xs with
+        | none => simp [hx, hr] at h
+        | some xs' =>
+          simp [hx, hr] at h; subst h
+          simp [noSwitchList, resolve_noSwitch dims x x' hx, resolveList_noSwitch dims xs xs' hr]
+  theorem resolveKVs_noSwitch (dims : List Dim) : ∀ (kvs r : List (String × Y)), resolveKVs dims kvs = some r → noSwitchKVs dims r = true
+    | [], r, h => by simp [resolveKVs] at h; subst h; rfl
+    | (k, v) :: rest, r, h => by
+      rw [resolveKVs] at h
+      cases hv : resolve dims v with
+      | none => simp [hv] at h
+      | some v' =>
+        cases hr : resolveKVs dims rest with
+        | none => simp [hv, hr] at h
+        | some rest' =>
+          simp [hv, hr] at h; subst h
+          simp [noSwitchKVs, resolve_noSwitch dims v v' hv, resolveKVs_noSwitch dims rest rest' hr]
+  theorem resolveAt_noSwitch (dims : List Dim) : ∀ (kvs : List (String × Y)) (key : String) (r : Y),
+      resolveAt dims kvs key = some r → noSwitch dims r = true
+    | [], _, r, h => by simp [resolveAt] at h
+    | (k, v) :: rest, key, r, h => by
+      rw [resolveAt] at h
+      split at h
+      · exact resolve_noSwitch dims v r h
+      · exact resolveAt_noSwitch dims rest key r h
+end
+
+/-- … hence also the tree the code builds (on well-formed documents). -/
+theorem reduce_noSwitch (dims : List Dim) (y r : Y) (hwf : WF dims y = true)
+    (h : reduceAny dims y = some r) : noSwitch dims r = true :=
+  resolve_noSwitch dims y r (by rw [← reduce_eq_resolve dims y hwf]; exact h)
+
 /-! ### the result does not depend on the order in which Go iterates a map -/
 
 theorem any_perm {α : Type} (p : α → Bool) {l l' : List α} (h : l.Perm l') : l.any p = l'.any p := by
